@@ -262,8 +262,8 @@ def report(pid, tier, seed, mod, outs, wall, verbose=False, partial=False):
     vio_files = []
     seenv = set()
     for c in violations:
-        sig = (c["job"], c["label"])
-        if sig in seenv:
+        sig = re.sub(r"\[\d+\]", "[]", c["label"])
+        if sig in seenv or len(seenv) >= 12:
             continue
         seenv.add(sig)
         fn = os.path.join(ROOT, "replays", pid, re.sub(r"[^A-Za-z0-9_.-]+", "_", "%s__%s" % (c["job"], c["label"]))[:150] + ".json")
